@@ -158,6 +158,9 @@ class Epson(protocol_base.IrProtocolBase):
         code_bits = []
         second_code_bits = []
 
+        if len(code) % 2:
+            raise DecodeError
+
         for i in range(0, len(code), 2):
             for j, (e_mark, e_space) in enumerate(self._bursts):
                 if (
